@@ -19,7 +19,7 @@ From Coq Require Import String.
 From Coq Require Import ZArith SpecFloat.
 Require Import OV.Base.Bytes OV.Base.Py OV.Base.PyInt OV.Base.Str OV.Base.Regex OV.Base.PyFloat.
 Require Import OV.Model.C10_Regex OV.Gen.C10_Units OV.Model.C10.
-Require Import OV.Gen.C10_Code.
+Require Import OV.Gen.C10_Code OV.Gen.C10_QemuCode.
 Require Import OV.Proofs.C10_Regex OV.Proofs.C10_Form OV.Proofs.C10_Float OV.Proofs.C10 OV.Proofs.C10_Qemu OV.Proofs.C10_Equiv OV.Proofs.C10_Examples.
 Open Scope Z_scope.
 
@@ -147,3 +147,51 @@ Theorem C10_translation_equiv : forall text unit_system return_int,
   gen_string_to_bytes text unit_system return_int = string_to_bytes text unit_system return_int.
 Proof. exact gen_string_to_bytes_equiv. Qed.
 Print Assumptions C10_translation_equiv.
+
+(* ---- QemuImgInfo (human format): which fields are byte sizes and what is stored for them ---- *)
+
+(* _extract_bytes raises nothing but ValueError, for every details text *)
+Theorem C10_extract_bytes_only_ValueError : forall details e,
+  extract_bytes details = Exn e -> e = ValueError.
+Proof. exact extract_bytes_only_ValueError. Qed.
+Print Assumptions C10_extract_bytes_only_ValueError.
+
+(* the byte-size fields are exactly virtual_size, cluster_size and disk_size *)
+Theorem C10_size_details_fields : forall root_cmd root_details,
+  size_details root_cmd root_details <> None <->
+  (root_cmd = lit "virtual_size" \/ root_cmd = lit "cluster_size" \/ root_cmd = lit "disk_size").
+Proof. exact size_details_fields. Qed.
+Print Assumptions C10_size_details_fields.
+
+(* what is stored: 0 for 'None' / 'unavailable', otherwise what _extract_bytes returns or raises *)
+Theorem C10_size_details_value : forall root_cmd root_details, In root_cmd size_fields ->
+  size_details root_cmd root_details =
+  Some (if existsb (beq root_details) zero_words then Ok 0%Z else extract_bytes root_details).
+Proof. exact size_details_value. Qed.
+Print Assumptions C10_size_details_value.
+
+(* never a silent 0: a stored 0 comes from one of the two words or from a text whose byte count is 0;
+   a stored exception is the ValueError of _extract_bytes, and every such ValueError is propagated *)
+Theorem C10_size_details_no_silent_zero : forall root_cmd root_details v,
+  size_details root_cmd root_details = Some v ->
+  (v = Ok 0%Z -> In root_details zero_words \/ extract_bytes root_details = Ok 0%Z) /\
+  (forall e, v = Exn e -> e = ValueError /\ extract_bytes root_details = Exn e) /\
+  (forall e, extract_bytes root_details = Exn e -> ~ In root_details zero_words -> v = Exn e).
+Proof. exact size_details_no_silent_zero. Qed.
+Print Assumptions C10_size_details_no_silent_zero.
+
+(* no figure, no unit: int(magnitude) *)
+Theorem C10_qemu_no_unit_is_int : forall details a e g g1,
+  re_search size_re details = Some (a, e, g) -> group_text details g 1 = Some g1 -> has_e g1 = false ->
+  truthy (group_text details g 3) = false -> truthy (group_text details g 2) = false ->
+  extract_bytes details = py_int_lim g1.
+Proof. exact no_unit_is_int. Qed.
+Print Assumptions C10_qemu_no_unit_is_int.
+
+(* the translated _canonicalize, _extract_bytes and size branch of _extract_details are the model *)
+Theorem C10_qemu_translation_equiv :
+  (forall field, gen_canonicalize field = canonicalize field) /\
+  (forall details, gen_extract_bytes details = extract_bytes details) /\
+  (forall root_cmd root_details, gen_size_details root_cmd root_details = size_details root_cmd root_details).
+Proof. exact (conj gen_canonicalize_equiv (conj gen_extract_bytes_equiv gen_size_details_equiv)). Qed.
+Print Assumptions C10_qemu_translation_equiv.
